@@ -7,6 +7,7 @@ import (
 
 	"pgregory.net/rapid"
 
+	"verif/harness/internal/guard"
 	"verif/harness/internal/inst"
 	"verif/harness/internal/ref"
 	"verif/harness/internal/rep"
@@ -32,10 +33,34 @@ func vecLen(t *rapid.T) int {
 
 var vecOps = []string{"Add", "Sub", "Mul", "ScalarMul", "Sum", "InnerProduct", "BatchInvert"}
 
-func drawVec(t *rapid.T, f inst.Field, n int, label string) (inst.Vec, []*big.Int) {
+// elemSize is the size in bytes of one stored element.
+func elemSize(f inst.Field) int { return f.NLimbs() * f.LimbBits() / 8 }
+
+// guardVec returns a vector of n elements placed flush against an inaccessible page (after its last element for
+// guard.AtEnd, before its first for guard.AtStart): a kernel that touches one byte outside faults.
+func guardVec(f inst.Field, n int, where guard.Placement, frees *[]func()) inst.Vec {
+	mem, free := guard.Alloc(n*elemSize(f), where)
+	*frees = append(*frees, free)
+	return f.NewVecAt(mem, n)
+}
+
+// placements of an operand: inside a larger heap vector with poisoned neighbours, or fenced by guard pages
+var placements = []string{"heap", "heap", "guard_end", "guard_end", "guard_start"}
+
+func drawVec(t *rapid.T, f inst.Field, n int, label string, frees *[]func()) (inst.Vec, []*big.Int, string) {
 	s := spec(f)
+	place := rapid.SampledFrom(placements).Draw(t, label+"place")
 	o := rapid.IntRange(0, 15).Draw(t, label+"off")
-	base := f.NewVec(n + o + 1)
+	var base inst.Vec
+	switch place {
+	case "guard_end":
+		base = guardVec(f, n+o, guard.AtEnd, frees)
+	case "guard_start":
+		base = guardVec(f, n+1, guard.AtStart, frees)
+		o = 0
+	default:
+		base = f.NewVec(n + o + 1)
+	}
 	vals := make([]*big.Int, n)
 	// a few distinct lattice values repeated with a drawn pattern keeps the draw count small
 	k := rapid.IntRange(1, 6).Draw(t, label+"pool")
@@ -52,20 +77,37 @@ func drawVec(t *rapid.T, f inst.Field, n int, label string) (inst.Vec, []*big.In
 	for i := 0; i < o; i++ {
 		base.At(i).SetBig(big.NewInt(0xbad))
 	}
-	base.At(n + o).SetBig(big.NewInt(0xbad))
-	return base.Slice(o, o+n), vals
+	if place != "guard_end" {
+		base.At(n + o).SetBig(big.NewInt(0xbad))
+	}
+	return base.Slice(o, o+n), vals, place
 }
 
 func propVector(t *rapid.T, f inst.Field) {
 	R := ref.NewFp(f.Q())
 	op := rapid.SampledFrom(vecOps).Draw(t, "op")
 	n := vecLen(t)
-	a, av := drawVec(t, f, n, "a")
-	b, bv := drawVec(t, f, n, "b")
+	var frees []func()
+	defer func() {
+		for _, fr := range frees {
+			fr()
+		}
+	}()
+	defer guard.PanicOnFault()() // a fault on a guard page is a panic rapid can report and shrink
+	a, av, pa := drawVec(t, f, n, "a", &frees)
+	b, bv, pb := drawVec(t, f, n, "b", &frees)
 	test := "C01_Vector/" + f.Name()
-	key := fmt.Sprintf("%s Vector.%s n=%d a0=%v b0=%v", f.Name(), op, n, first(av), first(bv))
-	cls := []string{op, lenClass(n)}
-	res := f.NewVec(n+1).Slice(0, n)
+	key := fmt.Sprintf("%s Vector.%s n=%d a0=%v b0=%v place=%s,%s", f.Name(), op, n, first(av), first(bv), pa, pb)
+	cls := []string{op, lenClass(n), "place_a:" + pa, "place_b:" + pb}
+	var res inst.Vec
+	switch pr := rapid.SampledFrom(placements).Draw(t, "resplace"); pr {
+	case "guard_end":
+		res = guardVec(f, n, guard.AtEnd, &frees)
+	case "guard_start":
+		res = guardVec(f, n, guard.AtStart, &frees)
+	default:
+		res = f.NewVec(n+1).Slice(0, n)
+	}
 	check := func(want func(i int) *big.Int) {
 		for i := 0; i < n; i++ {
 			checkVal(t, f, fmt.Sprintf("Vector.%s[%d/%d]", op, i, n), res.At(i), want(i))
@@ -179,5 +221,54 @@ func TestC01_Regress(t *testing.T) {
 				rep.Case("C01_Regress/"+f.Name(), f.Name()+" empty Vector."+op, true, "regress:F1")
 			}()
 		}
+	})
+}
+
+// TestC01_RegressF29_InnerProductOverread (rapid-free): the AVX-512 inner-product kernel of the 4-word fields
+// read the words of its first operand through 8-byte broadcast loads placed 4 bytes apart, so the load of the
+// last word of the last element extended 4 bytes past the end of the vector: a vector ending at the end of a
+// mapped region made Vector.InnerProduct crash the process (SIGSEGV, "fatal error: fault"). The operands are
+// placed flush against an inaccessible page; every vector operation must stay inside its operands.
+func TestC01_RegressF29_InnerProductOverread(t *testing.T) {
+	forFields(t, func(t *testing.T, f inst.Field) {
+		R := ref.NewFp(f.Q())
+		for _, n := range []int{1, 2, 15, 16, 17, 33, 255, 256} {
+			for _, where := range []guard.Placement{guard.AtEnd, guard.AtStart} {
+				func() {
+					var frees []func()
+					defer func() {
+						for _, fr := range frees {
+							fr()
+						}
+					}()
+					defer guard.PanicOnFault()()
+					defer func() {
+						if r := recover(); r != nil {
+							t.Fatalf("%s: a vector operation on %d elements placed against a guard page (placement %d) touched memory outside its operands: %v (F29)", f.Name(), n, where, r)
+						}
+					}()
+					a, b, res := guardVec(f, n, where, &frees), guardVec(f, n, where, &frees), guardVec(f, n, where, &frees)
+					want, sum := new(big.Int), new(big.Int)
+					for i := 0; i < n; i++ {
+						x, y := big.NewInt(int64(3*i+1)), new(big.Int).Sub(f.Q(), big.NewInt(int64(i+1)))
+						a.At(i).SetBig(x)
+						b.At(i).SetBig(y)
+						want = R.Add(want, R.Mul(x, y))
+						sum = R.Add(sum, x)
+					}
+					if got := a.InnerProduct(b).Big(); got.Cmp(want) != 0 {
+						t.Fatalf("%s: InnerProduct n=%d = %s want %s", f.Name(), n, got, want)
+					}
+					if got := a.Sum().Big(); got.Cmp(sum) != 0 {
+						t.Fatalf("%s: Sum n=%d = %s want %s", f.Name(), n, got, sum)
+					}
+					res.Add(a, b)
+					res.Sub(a, b)
+					res.Mul(a, b)
+					res.ScalarMul(a, b.At(0))
+				}()
+			}
+		}
+		rep.Case("C01_RegressF29/"+f.Name(), f.Name()+" guard-page vectors", true, "regress:F29")
 	})
 }
